@@ -10,7 +10,7 @@
 From Coq Require Import List Arith NArith ZArith Bool Lia String ZifyN ZifyBool.
 Import ListNotations.
 Require Import PV.Comb.PState PV.Comb.Bytes PV.Comb.Utf8 PV.Comb.Utf8b PV.Iter.Queue PV.Peg.Ast PV.Peg.Spec.
-Require Import PV.Json.Rfc8259 PV.Json.Recogniser PV.Json.EvalFacts PV.Json.LexLib.
+Require Import PV.Json.Rfc8259 PV.Json.Recogniser PV.Json.Utf8Facts PV.Json.EvalFacts PV.Json.LexLib.
 
 Lemma is_wsb_ascii b : is_wsb b = true -> ascii b.
 Proof. unfold is_wsb, ws_bytes, ascii. cbn [existsb]. lia. Qed.
